@@ -12,8 +12,9 @@
    be the spec's day number + fraction (1e-9 d), the inverse must be exactly the same
    whole-second instant, later instants must have strictly larger Julian dates, scenario-second
    offsets must round trip (1e-4 s).  Every TLC second tick is replayed as a transition.
-3. TLC enumerates the lattice of Durations.tla (start second x step x 1-3 requested durations)
-   and prints expected step counts / epochs; the driver runs REAL scenarios for a stratified
+3. TLC enumerates the lattice of Durations.tla (start second x step x 1-3 requested durations:
+   whole seconds, requests of 12 h .. 4 d, and - DurationsFrac.tla - requests on a sub-second lattice
+   just below / on / above multiples of the step) and prints expected step counts / epochs; the driver runs REAL scenarios for a stratified
    sample of them (public Scenario.propagateTo, called with a target computed by datetime
    arithmetic ("api") and the way the command line does, through
    conversions.getTargetJulianDate ("cli")), start instants with every second of the minute placed
@@ -216,9 +217,11 @@ def _run_duration(task):
     from resonaate.physics.time.conversions import getTargetJulianDate
     from sqlalchemy.orm import Query
     start = su.parse_iso(task["start"])
-    dt, reqs, via = task["dt"], task["reqs"], task["via"]
-    n_total = sum(r // dt for r in reqs)
-    out = {"id": task["id"], "startSec": start.second, "dt": dt, "via": via, "start": task["start"],
+    dt, reqs, via = task["dt"], task["reqs"], task["via"]       # reqs in seconds (a float when fractional)
+    reqs_cs = [round(D * 100) for D in reqs]                    # the same in exact hundredths of a second
+    n_total = sum(c // (100 * dt) for c in reqs_cs)
+    tick = 1 if all(c % 100 == 0 for c in reqs_cs) else 100     # unit of the requests in the trace
+    out = {"id": task["id"], "startSec": start.second, "dt": dt, "via": via, "start": task["start"], "tick": tick,
            "reqs": reqs, "ev": [], "rows": [], "crash": None, "counts": []}
     try:
         cfg = su.base_config(start=start, step=dt, n_steps=max(1, n_total + 1), n_targets=1,
@@ -239,16 +242,20 @@ def _run_duration(task):
 
         app.stepForward = traced_step          # wrapper on the instance, no source hook
         for c, D in enumerate(reqs):
-            out["ev"].append({"e": "begin", "D": D})
+            out["ev"].append({"e": "begin", "D": reqs_cs[c] * tick // 100})
             before = len(out["ev"])
             raised = 0
-            budget[0] = D // dt + 2
+            budget[0] = reqs_cs[c] // (100 * dt) + 2
             try:
                 if via == "api":
                     su.run_for(app, D)
-                else:                           # the way resonaate.runResonaate computes its target
+                else:                           # the way resonaate.runResonaate computes its target:
+                    #                             hours as a float -> timedelta -> getTargetJulianDate
                     jd_from = app.clock.julian_date_start if c == 0 else app.clock.julian_date_epoch
-                    app.propagateTo(getTargetJulianDate(jd_from, timedelta(seconds=D)))
+                    jump = timedelta(hours=D / 3600)
+                    if jump != timedelta(microseconds=reqs_cs[c] * 10000):      # (float hours did not land on
+                        jump = timedelta(microseconds=reqs_cs[c] * 10000)       #  the lattice point: use it exactly)
+                    app.propagateTo(getTargetJulianDate(jd_from, jump))
             except ValueError:
                 raised = 1                      # "delta less than physics time step"
             except _RunAway:
@@ -287,7 +294,7 @@ def _project_run(r, idx):
         t = datetime.fromisoformat(iso)
         offs.append(cal.ms_between(t, start))
         ok &= idx.jd_ok(jd, t)
-    return {"startSec": r["startSec"], "dt": r["dt"], "ev": ev, "rows": sorted(offs), "epochRowsOk": ok}
+    return {"startSec": r["startSec"], "dt": r["dt"], "tick": r["tick"], "ev": ev, "rows": sorted(offs), "epochRowsOk": ok}
 
 
 def _dispatch(task):
@@ -297,6 +304,43 @@ def _dispatch(task):
 # ======================================================================================
 # driver side
 # ======================================================================================
+def _in_seconds(lattice):
+    """DUR records are in ticks (DurationsFrac.tla: 100 per second, Durations.tla: 1): convert to seconds."""
+    for r in lattice:
+        tk = r.get("tick", 1)
+        r["reqsCs"] = [c * 100 // tk for c in r["reqs"]]
+        r["reqs"] = [c // 100 if c % 100 == 0 else c / 100 for c in r["reqsCs"]]
+        r["dt"] = r["dt"] // tk
+        r["epochs"] = [e // tk for e in r["epochs"]]
+    return lattice
+
+
+def _choose_fractional(lattice, per_class, rng):
+    """Sub-second lattice: `per_class` configurations per distance of the last request from a
+    multiple of the step (-0.51, -0.50, -0.49, -0.12, +0.12, +0.49, +0.50 s, and "elsewhere in the
+    step"), spread over steps and start seconds."""
+    by_f: dict = {}
+    for r in lattice:
+        m = r["reqsCs"][-1] % (100 * r["dt"])
+        f = m - 100 * r["dt"] if m >= 100 * r["dt"] - 51 else (m if m <= 50 else "elsewhere")
+        by_f.setdefault(f, []).append(r)
+    chosen = []
+    for f in sorted(by_f, key=str):
+        pool = sorted(by_f[f], key=lambda r: (r["startSec"], r["dt"], r["reqsCs"]))
+        rng.shuffle(pool)
+        seen_dt, seen_sec, mine = set(), set(), []
+        for r in pool:
+            if len(mine) >= per_class:
+                break
+            if (r["dt"] in seen_dt and len(seen_dt) < 4) or r["startSec"] in seen_sec:
+                continue
+            seen_dt.add(r["dt"])
+            seen_sec.add(r["startSec"])
+            mine.append(r)
+        chosen += mine
+    return chosen
+
+
 def _pick_boundary_days(days, quick, rng):
     """Boundary days for the every-second sweeps, by the spec's classification."""
     by_kind: dict = {}
@@ -385,7 +429,7 @@ def _duration_tasks(chosen, starts, rng):
     tasks = []
     kinds = ["year", "month", "leapday", "day"]
     for j, r in enumerate(chosen):
-        total = sum(r["reqs"])
+        total = int(sum(r["reqs"]))
         kind = kinds[j % 4]
         pool = starts[kind] or next(v for v in starts.values() if v)
         midnight = pool[j % len(pool)]
@@ -449,9 +493,10 @@ def _validate_durations(ctx: Ctx, runs, idx, selftest=True):
     for tid, invs in sorted(rejected.items()):
         t = runs[tid - 1]
         for inv in sorted(set(invs)):
-            sig = f"{SIG_OF_INV.get(inv, inv)}-{t['via']}"
-            ctx.violation(sig, f"timed run via {t['via']} start {t['start']} step {t['dt']} s requests {t['reqs']}: "
-                               f"steps taken per call {t['counts']} (floor(D/step) = {[D // t['dt'] for D in t['reqs']]}), "
+            frac = any(D != int(D) for D in t["reqs"])
+            sig = f"{SIG_OF_INV.get(inv, inv)}{'-fractional-request' if frac else ''}-{t['via']}"
+            ctx.violation(sig, f"timed run via {t['via']} start {t['start']} step {t['dt']} s requests {t['reqs']} s: "
+                               f"steps taken per call {t['counts']} (floor(D/step) = {[int(D // t['dt']) for D in t['reqs']]}), "
                                f"trace rejected by {inv}",
                           {"kind": "duration", "start": t["start"], "dt": t["dt"], "reqs": t["reqs"], "via": t["via"],
                            "sensors": t.get("sensors", 1), "trace": traces[tid - 1]})
@@ -463,16 +508,23 @@ def _validate_durations(ctx: Ctx, runs, idx, selftest=True):
 
 
 def _spec_mutant(workdir):
-    """Non-vacuity of Durations.tla: the as-coded start inversion must break StepsHonoured."""
+    """Non-vacuity of Durations.tla: each named deviation must be refuted by TLC."""
     cfg = (tlc.SPEC_DIR / "Durations_quick.cfg").read_text()
     cfg = cfg.replace("InvertStartBySecTruncation = FALSE", "InvertStartBySecTruncation = TRUE")
     cfg = cfg.replace("INVARIANT Emit\n", "").replace("MaxCalls = 3", "MaxCalls = 1")
     res = tlc.run_tlc("Durations", cfg, workdir, workers=2, timeout=600)
-    tlc.require_ok(res, "Durations (as-coded variant)")
+    tlc.require_ok(res, "Durations (as-coded start inversion)")
     killed = sorted({v[0] for v in res.invariant_violations})
     if "StepsHonoured" not in killed and "StopsOnlyWhenNoStepFits" not in killed:
         raise tlc.MachineryError("Durations.tla: as-coded start inversion does not violate StepsHonoured (vacuous spec)")
-    return killed
+    cfg = (tlc.SPEC_DIR / "DurationsFrac_quick.cfg").read_text().replace("INVARIANT FracEmit\n", "")
+    res = tlc.run_tlc("DurationsFrac", cfg.replace("TargetKeepsFraction = FALSE", "TargetKeepsFraction = TRUE"), workdir,
+                      workers=2, timeout=600)
+    tlc.require_ok(res, "DurationsFrac (target keeps the fraction, difference rounded to nearest)")
+    killed_frac = sorted({v[0] for v in res.invariant_violations})
+    if not {"StepsHonoured", "NoOvershoot"} & set(killed_frac):
+        raise tlc.MachineryError("DurationsFrac.tla: TargetKeepsFraction does not violate StepsHonoured/NoOvershoot (vacuous spec)")
+    return {"Durations.InvertStartBySecTruncation": killed, "DurationsFrac.TargetKeepsFraction": killed_frac}
 
 
 def _merge(total, acc):
@@ -501,13 +553,17 @@ def run(ctx: Ctx):
                 "a case = one (day, list of seconds) or one (boundary day, 2-hour range) or one tick; durations: "
                 "stratified sample of the Durations.tla lattice (every start second, all steps, 1-3 calls, multiples "
                 "and non-multiples of the step) plus requests of 12 h .. 4 d (1 d, 1 d 7.5 h, 2 d, ...) with steps of "
-                "1-2 h, each run via 'api' and via 'cli'; no trivial cases are generated")
+                "1-2 h plus requests k*step -0.51/-0.50/-0.49/-0.12/+0.12/+0.49/+0.50 s (+0/1 s), each run via 'api' "
+                "(target = clock + D by datetime arithmetic) and via 'cli' (hours as a float -> timedelta -> "
+                "getTargetJulianDate); no trivial cases are generated")
     ctx.assumptions = [
         "Julian dates compared with the spec's exact day number + second/86400 to 1e-9 d (2 ulp of a float JD)",
         "calendar seconds returned as floats and scenario-second offsets compared to 1e-4 s (a float JD resolves 4e-5 s)",
         "julianDateToDatetime must return exactly the whole-second instant (statement of C05)",
         "authoritative instants come from datetime + timedelta; the spec's day number is the proleptic Gregorian ordinal",
         "a duration D < step may be answered by ValueError (0 steps advanced); D >= step must not",
+        "requested durations lie on a lattice of hundredths of a second, at least 0.12 s away from a multiple of the step "
+        "unless they are whole seconds; the steps demanded are floor(D / step) of the requested D (fraction included)",
         "scenario runs use start dates inside the shipped Earth-orientation table (2014-2022), truth-only two-body, "
         "output step = physics step; rows = truth rows of the target joined to their epoch rows",
     ]
@@ -519,12 +575,14 @@ def run(ctx: Ctx):
     # the worker processes are forked before any thread exists
     pool = mp.get_context("fork").Pool(nproc, initializer=_init_worker)
     try:
-        with ThreadPoolExecutor(5) as ex:
+        with ThreadPoolExecutor(6) as ex:
             f_walk = ex.submit(cal.run_walk, ctx.sub("walk"), w)
             f_sec = ex.submit(cal.run_seconds, sec_cfg, ctx.sub("seconds"), w)
             f_dur = ex.submit(tlc.run_tlc, "Durations", dur_cfg, ctx.sub("durations"), workers=w, timeout=1500)
             f_long = ex.submit(tlc.run_tlc, "Durations", "Durations_long_quick.cfg" if quick else "Durations_long_thorough.cfg",
                                ctx.sub("durations_long"), workers=2, timeout=1500)
+            f_frac = ex.submit(tlc.run_tlc, "DurationsFrac", "DurationsFrac_quick.cfg" if quick else "DurationsFrac_thorough.cfg",
+                               ctx.sub("durations_frac"), workers=2, timeout=1500)
             f_mut = ex.submit(_spec_mutant, ctx.sub("dur_mutant"))
             # -- the calendar table; the sweep of instants starts as soon as it is there
             walk_res, days = f_walk.result()
@@ -555,15 +613,20 @@ def run(ctx: Ctx):
             # -- timed runs follow as soon as the lattice and the boundary ticks are there
             sec_res, ticks = f_sec.result()
             dur_res = cal.spec_fail(f_dur.result(), "Durations.tla lattice")
-            lattice = dur_res.tagged("DUR")
+            lattice = _in_seconds(dur_res.tagged("DUR"))
             if not lattice:
                 raise tlc.MachineryError("Durations.tla emitted no configuration")
             starts = _start_instants(ticks, rng)
             long_res = cal.spec_fail(f_long.result(), "Durations.tla lattice (requests of a day and more)")
-            lattice_long = long_res.tagged("DUR")
+            lattice_long = _in_seconds(long_res.tagged("DUR"))
             if not lattice_long:
                 raise tlc.MachineryError("Durations.tla (long requests) emitted no configuration")
-            chosen = _choose_long(lattice_long, 12 if quick else 60, rng) + _choose_durations(lattice, 2 if quick else 10, rng)
+            frac_res = cal.spec_fail(f_frac.result(), "DurationsFrac.tla lattice (requests with a fractional second)")
+            lattice_frac = _in_seconds(frac_res.tagged("DUR"))
+            if not lattice_frac:
+                raise tlc.MachineryError("DurationsFrac.tla emitted no configuration")
+            chosen = _choose_long(lattice_long, 12 if quick else 60, rng) + _choose_fractional(lattice_frac, 3 if quick else 24, rng) \
+                + _choose_durations(lattice, 2 if quick else 10, rng)
             dur_tasks = _duration_tasks(chosen, starts, rng)
             phase["lattice_and_ticks"] = round(time.time() - t0, 1)
             dur_async = pool.map_async(_dispatch, dur_tasks, chunksize=2)
@@ -574,6 +637,7 @@ def run(ctx: Ctx):
         ctx.add_tlc(sec_res, "Calendar.tla second ticks across boundary instants (Monotone, RoundTrip, TickLength)")
         ctx.add_tlc(dur_res, "Durations.tla configuration lattice (StepsHonoured, EpochsAreStartPlusKDt, ...)")
         ctx.add_tlc(long_res, "Durations.tla lattice of requests of 12 h .. 4 d with steps of 1-2 h")
+        ctx.add_tlc(frac_res, "DurationsFrac.tla lattice of requests k*step -0.51 .. +1.50 s (hundredths of a second)")
         results = {r["id"]: r for r in sweep_async.get(timeout=6000)}
         phase["instants_swept"] = round(time.time() - t0, 1)
         runs_raw = dur_async.get(timeout=6000)
@@ -655,9 +719,10 @@ def run(ctx: Ctx):
     ctx.extra["phase_done_at_s"] = phase
     ctx.extra["timed_runs"] = len(dur_tasks)
     ctx.extra["timed_runs_rejected"] = len(rejected)
-    ctx.extra["duration_lattice_points_emitted"] = len(lattice) + len(lattice_long)
+    ctx.extra["duration_lattice_points_emitted"] = len(lattice) + len(lattice_long) + len(lattice_frac)
+    ctx.extra["timed_runs_with_fractional_request"] = sum(1 for t in dur_tasks if any(D != int(D) for D in t["reqs"]))
     ctx.extra["timed_runs_of_a_day_or_more"] = sum(1 for t in dur_tasks if max(t["reqs"]) >= 86400)
-    ctx.extra["spec_mutants_killed"] = {"Durations.InvertStartBySecTruncation": killed}
+    ctx.extra["spec_mutants_killed"] = killed
 
 
 def replay(ctx: Ctx, rp: dict):
